@@ -5,7 +5,7 @@
     tree under test and is what the correspondence runs against.  The full statement - no request
     makes [handler_model] panic or hang - is false of [current] while any field of it is [false]:
     the C08_refuted_* theorems give a witness request per site. *)
-From Coq Require Import String List ZArith Bool Floats.
+From Coq Require Import Ascii String List ZArith Bool Floats.
 From Verif Require Import GoSem UrlStr UrlFixes UrlCfg UrlHandler UrlCfgProofs UrlWitness.
 
 (** ** The URL-configuration parser *)
@@ -39,7 +39,7 @@ Theorem C08_parser_establishes_G : forall fx path now c,
   c_tsbd c <> None /\ c_startNr c <> None /\
   (fx_periods fx = true -> match c_pph c with Some n => 1 <= n <= 3600 | None => True end) /\
   (fx_subsdur fx = true -> 0 < c_subsDurMS c) /\
-  (fx_snr fx = true -> match c_startNr c with Some n => n <= maxu32 | None => True end) /\
+  (fx_snr fx = true -> match c_startNr c with Some n => -2147483648 <= n <= maxu32 | None => True end) /\
   0 <= now.
 Proof. exact parser_establishes. Qed.
 Print Assumptions C08_parser_establishes_G.
